@@ -26,6 +26,12 @@ pub struct SliceHeader { pub slot: Slot, pub slice_index: SliceIndex, pub is_las
 pub struct ShredPayload { pub header: SliceHeader, pub shred_index: ShredIndex }
 #[verifier::external_body] pub struct ValidatedShred { _p: () }
 #[verifier::external_body] pub struct SliceCommitment { _p: () }
+#[verifier::external_body] pub struct Signature { _p: () }
+impl Clone for Signature {
+    #[verifier::external_body]
+    fn clone(&self) -> (r: Self) ensures r == *self { unimplemented!() }
+}
+impl Copy for Signature {}
 impl Clone for SliceCommitment {
     #[verifier::external_body]
     fn clone(&self) -> (r: Self) ensures r == *self { unimplemented!() }
@@ -42,6 +48,24 @@ impl PartialEq for SliceCommitment {
 impl ValidatedShred {
     pub uninterp spec fn spec_payload(&self) -> ShredPayload;
     pub uninterp spec fn spec_commitment(&self) -> SliceCommitment;
+    // the leader's signature over the commitment as carried by the shred: CHECKED only if the shred was validated without a
+    // cached commitment (ValidatedShred::try_new skips the check for an identical cached commitment)
+    pub uninterp spec fn spec_sig(&self) -> Signature;
+    // the same shred, up to the signature it carries
+    pub open spec fn same_but_sig(&self, o: ValidatedShred) -> bool {
+        self.spec_payload() == o.spec_payload() && self.spec_commitment() == o.spec_commitment()
+            && self.spec_is_data() == o.spec_is_data() && self.spec_slice_root() == o.spec_slice_root()
+    }
+    #[verifier::external_body]
+    pub fn slice_sig(&self) -> (r: Signature) ensures r == self.spec_sig() { unimplemented!() }
+    // replaces the signature; everything the blockstore reads of the shred stays
+    #[verifier::external_body]
+    pub fn set_slice_sig(&mut self, slice_sig: Signature)
+        ensures
+            final(self).spec_sig() == slice_sig,
+            final(self).spec_payload() == old(self).spec_payload(), final(self).spec_commitment() == old(self).spec_commitment(),
+            final(self).spec_is_data() == old(self).spec_is_data(), final(self).spec_slice_root() == old(self).spec_slice_root(),
+    { unimplemented!() }
     // the data/coding tag (ShredPayloadType): covered neither by the leader's signature nor by the Merkle proof
     pub uninterp spec fn spec_is_data(&self) -> bool;
     #[verifier::external_body]
@@ -170,7 +194,11 @@ impl BlockData {
     pub open spec fn tree_leaves(&self) -> Option<nat> {
         match self.double_merkle_tree { Some(t) => Some(t.spec_leaves().len()), None => None }
     }
-    pub open spec fn wf(&self) -> bool { wf_parts(self.slices@, self.shreds@, self.commitment_cache@, self.last_slice, self.tree_leaves()) }
+    // the cached commitments (the cache keeps each with the verified signature of the shred that populated the entry)
+    pub open spec fn cc(&self) -> Map<SliceIndex, SliceCommitment> {
+        self.commitment_cache@.map_values(|p: (SliceCommitment, Signature)| p.0)
+    }
+    pub open spec fn wf(&self) -> bool { wf_parts(self.slices@, self.shreds@, self.cc(), self.last_slice, self.tree_leaves()) }
     pub open spec fn last_consistent(l: SliceIndex, si: SliceIndex, is_last: bool) -> bool {
         (si.0 < l.0 && !is_last) || (si == l && is_last)
     }
@@ -191,14 +219,14 @@ pub proof fn lemma_rows_after_deshred(pre: BlockData, cur: BlockData, index: Sli
     ensures
         forall|k: SliceIndex, i: int| cur.shreds@.contains_key(k) && 0 <= i < TOTAL_SHREDS && (#[trigger] row_at(cur.shreds@, k, i)) is Some ==>
             (row_at(cur.shreds@, k, i)->0).spec_payload().header.slice_index == k
-            && cur.commitment_cache@.contains_key(k) && cur.commitment_cache@[k] == (row_at(cur.shreds@, k, i)->0).spec_commitment(),
+            && cur.cc().contains_key(k) && cur.cc()[k] == (row_at(cur.shreds@, k, i)->0).spec_commitment(),
         forall|k: SliceIndex| #[trigger] cur.shreds@.contains_key(k) <==> pre.shreds@.contains_key(k),
         forall|k: SliceIndex, i: int| pre.shreds@.contains_key(k) && 0 <= i < TOTAL_SHREDS && (#[trigger] row_at(pre.shreds@, k, i)) is Some
             ==> row_at(cur.shreds@, k, i) == row_at(pre.shreds@, k, i),
 {
     assert forall|k: SliceIndex, i: int| cur.shreds@.contains_key(k) && 0 <= i < TOTAL_SHREDS && (#[trigger] row_at(cur.shreds@, k, i)) is Some implies
         (row_at(cur.shreds@, k, i)->0).spec_payload().header.slice_index == k
-        && cur.commitment_cache@.contains_key(k) && cur.commitment_cache@[k] == (row_at(cur.shreds@, k, i)->0).spec_commitment() by {
+        && cur.cc().contains_key(k) && cur.cc()[k] == (row_at(cur.shreds@, k, i)->0).spec_commitment() by {
         if k == index {
             if row0@[i] is Some { assert(row_at(pre.shreds@, k, i) == row0@[i]); } else {
                 let j = choose|j: int| 0 <= j < TOTAL_SHREDS && row0@[j] is Some
@@ -519,7 +547,7 @@ impl BlockstoreImpl {
             old(self).block_data@.contains_key(slot) ==> *r == old(self).block_data@[slot],
             !old(self).block_data@.contains_key(slot) ==> !r.leader_misbehaved && r.all_wf() && r.slot == slot
                 && r.disseminated.slot == slot && r.disseminated.last_slice is None && r.disseminated.completed is None
-                && r.disseminated.commitment_cache@.len() == 0 && r.disseminated.shreds@.len() == 0,
+                && r.disseminated.commitment_cache@.len() == 0 /*raw*/ && r.disseminated.shreds@.len() == 0,
             final(self).block_data@ == old(self).block_data@.insert(slot, *final(r)),
             final(self).votor_channel == old(self).votor_channel,
     { unimplemented!() }
@@ -727,7 +755,7 @@ blockend `self.last_slice = Some(slice_index);`
             assert forall|k: SliceIndex| #[trigger] self.shreds@.contains_key(k) implies k.0 <= slice_index.0 by {}
             assert forall|k: SliceIndex, i: int| self.shreds@.contains_key(k) && 0 <= i < TOTAL_SHREDS && (#[trigger] row_at(self.shreds@, k, i)) is Some implies
                 (row_at(self.shreds@, k, i)->0).spec_payload().header.slice_index == k
-                && self.commitment_cache@.contains_key(k) && self.commitment_cache@[k] == (row_at(self.shreds@, k, i)->0).spec_commitment() by {
+                && self.cc().contains_key(k) && self.cc()[k] == (row_at(self.shreds@, k, i)->0).spec_commitment() by {
                 assert(pre.shreds@.contains_key(k) && self.shreds@[k] == pre.shreds@[k]);
                 assert(row_at(self.shreds@, k, i) == row_at(pre.shreds@, k, i));
             }
@@ -786,9 +814,10 @@ after `self.slices.insert(index, reconstructed_slice);`
 props C13 C12
 ret r
 rewrite[R5] `match self.commitment_cache.entry(slice_index) {` => `match self.commitment_cache.get(&slice_index) {`
-rewrite[R5] `Entry::Occupied(entry) if entry.get() != &shred.commitment() => {` => `Some(entry) if *entry != shred.commitment() => {`
-rewrite[R5] `Entry::Occupied(_) => {}` => `Some(_) => {}`
-rewrite[R5] `Entry::Vacant(entry) => { entry.insert(shred.commitment()); }` => `None => { self.commitment_cache.insert(slice_index, shred.commitment()); }`
+rewrite[R5] `Entry::Occupied(entry) if entry.get().0 != shred.commitment() => {` => `Some(entry) if entry.0 != shred.commitment() => {`
+rewrite[R5] `Entry::Occupied(entry) => {` => `Some(entry) => {`
+rewrite[R5] `shred.set_slice_sig(entry.get().1);` => `shred.set_slice_sig(entry.1);`
+rewrite[R5] `Entry::Vacant(entry) => { entry.insert((shred.commitment(), shred.slice_sig())); }` => `None => { self.commitment_cache.insert(slice_index, (shred.commitment(), shred.slice_sig())); }`
 rewrite[R8] `self.shreds.keys().any(|&ind|` => `verif_any_key(&self.shreds, |ind: SliceIndex|`
 rewrite[R8] `self.shreds.is_empty()` => `verif_shreds_is_empty(&self.shreds)`
 rewrite[R5] `self .shreds .entry(slice_index) .or_insert([const { None }; TOTAL_SHREDS])` => `verif_shreds_entry(&mut self.shreds, slice_index)`
@@ -803,13 +832,13 @@ ensures
         final(self).slot == old(self).slot,
         // [C12.second_commitment_for_a_slice_is_equivocation C13.conflicting_slices_are_equivocation]
         // whatever else the block data holds (also after the block is complete)
-        (old(self).commitment_cache@.contains_key(shred.spec_payload().header.slice_index)
-            && old(self).commitment_cache@[shred.spec_payload().header.slice_index] != shred.spec_commitment())
+        (old(self).cc().contains_key(shred.spec_payload().header.slice_index)
+            && old(self).cc()[shred.spec_payload().header.slice_index] != shred.spec_commitment())
             ==> r == Err::<Option<BlockstoreEvent>, AddShredError>(AddShredError::Equivocation)
                 && final(self).shreds == old(self).shreds && final(self).slices == old(self).slices && final(self).commitment_cache == old(self).commitment_cache
                 && final(self).last_slice == old(self).last_slice && final(self).completed == old(self).completed,
         // [C12.cached_commitment_is_the_first_one_seen]
-        old(self).commitment_cache@.contains_key(shred.spec_payload().header.slice_index) ==> final(self).commitment_cache == old(self).commitment_cache,
+        old(self).cc().contains_key(shred.spec_payload().header.slice_index) ==> final(self).commitment_cache == old(self).commitment_cache,
         // [C12.re_tagged_shred_is_dropped_without_blaming_the_leader C13.re_tagged_shred_is_never_stored C14.re_tagged_shred_is_never_stored]
         // the data/coding tag is not authenticated: a shred whose tag does not fit its position is not stored (it would make
         // every later decoding of the slice fail) and the refusal is not one the blockstore turns into a misbehaviour report
@@ -822,20 +851,20 @@ ensures
         // what is still reported for such a shred is equivocation shown by its leader-signed commitment (a second commitment
         // for the slice, or contradictory last-slice markers), never its tag
         (!shred.tag_fits_position() && r == Err::<Option<BlockstoreEvent>, AddShredError>(AddShredError::Equivocation)) ==>
-            (old(self).commitment_cache@.contains_key(shred.spec_payload().header.slice_index)
-                && old(self).commitment_cache@[shred.spec_payload().header.slice_index] != shred.spec_commitment())
+            (old(self).cc().contains_key(shred.spec_payload().header.slice_index)
+                && old(self).cc()[shred.spec_payload().header.slice_index] != shred.spec_commitment())
             || (old(self).last_slice matches Some(l) && !BlockData::last_consistent(l, shred.spec_payload().header.slice_index, shred.spec_payload().header.is_last))
             || (old(self).last_slice is None && shred.spec_payload().header.is_last
                 && (exists|k: SliceIndex| old(self).shreds@.contains_key(k) && k.0 > shred.spec_payload().header.slice_index.0)),
         // [C13.contradictory_last_slice_markers_are_equivocation]
-        (!(old(self).commitment_cache@.contains_key(shred.spec_payload().header.slice_index)
-            && old(self).commitment_cache@[shred.spec_payload().header.slice_index] != shred.spec_commitment())
+        (!(old(self).cc().contains_key(shred.spec_payload().header.slice_index)
+            && old(self).cc()[shred.spec_payload().header.slice_index] != shred.spec_commitment())
           && (old(self).last_slice matches Some(l) && !BlockData::last_consistent(l, shred.spec_payload().header.slice_index, shred.spec_payload().header.is_last)))
             ==> r == Err::<Option<BlockstoreEvent>, AddShredError>(AddShredError::Equivocation)
                 && final(self).shreds == old(self).shreds && final(self).slices == old(self).slices && final(self).completed == old(self).completed,
         // [C13.last_marker_below_a_stored_slice_is_equivocation] (the same contradiction, met in the other arrival order)
-        (!(old(self).commitment_cache@.contains_key(shred.spec_payload().header.slice_index)
-            && old(self).commitment_cache@[shred.spec_payload().header.slice_index] != shred.spec_commitment())
+        (!(old(self).cc().contains_key(shred.spec_payload().header.slice_index)
+            && old(self).cc()[shred.spec_payload().header.slice_index] != shred.spec_commitment())
           && old(self).last_slice is None && shred.spec_payload().header.is_last
           && (exists|k: SliceIndex| old(self).shreds@.contains_key(k) && k.0 > shred.spec_payload().header.slice_index.0))
             ==> r == Err::<Option<BlockstoreEvent>, AddShredError>(AddShredError::Equivocation),
@@ -844,7 +873,16 @@ ensures
         (r is Ok && (forall|k: SliceIndex| !old(self).shreds@.contains_key(k))) ==> r == Ok::<Option<BlockstoreEvent>, AddShredError>(Some(BlockstoreEvent::FirstShred(old(self).slot))),
         r is Ok ==> final(self).shreds@.contains_key(shred.spec_payload().header.slice_index),
         // [C13.accepted_shred_is_stored_and_nothing_stored_is_lost]
-        r is Ok ==> row_at(final(self).shreds@, shred.spec_payload().header.slice_index, shred.spec_payload().shred_index.0 as int) == Some(shred),
+        r is Ok ==> (row_at(final(self).shreds@, shred.spec_payload().header.slice_index, shred.spec_payload().shred_index.0 as int) matches Some(st)
+            && st.same_but_sig(shred)),
+        // [C14.stored_shred_carries_the_verified_signature_of_its_slice C13.stored_shred_carries_the_verified_signature_of_its_slice]
+        // what is stored (and later copied onto rebuilt shreds and served) carries the signature kept with the slice's cached
+        // commitment - the one of the shred that populated the entry, which was checked - not whatever this shred came with
+        r is Ok ==> final(self).commitment_cache@.contains_key(shred.spec_payload().header.slice_index)
+            && (row_at(final(self).shreds@, shred.spec_payload().header.slice_index, shred.spec_payload().shred_index.0 as int)->0).spec_sig()
+                == final(self).commitment_cache@[shred.spec_payload().header.slice_index].1,
+        (r is Ok && !old(self).commitment_cache@.contains_key(shred.spec_payload().header.slice_index))
+            ==> final(self).commitment_cache@[shred.spec_payload().header.slice_index].1 == shred.spec_sig(),
         // [C13.duplicate_position_is_refused]
         (old(self).shreds@.contains_key(shred.spec_payload().header.slice_index)
             && row_at(old(self).shreds@, shred.spec_payload().header.slice_index, shred.spec_payload().shred_index.0 as int) is Some) ==> r is Err,
@@ -862,10 +900,10 @@ before `let header = &shred.payload().header;`
 before `match self.last_slice {`
         let ghost a = *self;
         proof {
-            assert(a.commitment_cache@.contains_key(slice_index) && a.commitment_cache@[slice_index] == shred.spec_commitment());
+            assert(a.cc().contains_key(slice_index) && a.cc()[slice_index] == shred.spec_commitment());
             assert forall|k: SliceIndex, i: int| a.shreds@.contains_key(k) && 0 <= i < TOTAL_SHREDS && (#[trigger] row_at(a.shreds@, k, i)) is Some implies
                 (row_at(a.shreds@, k, i)->0).spec_payload().header.slice_index == k
-                && a.commitment_cache@.contains_key(k) && a.commitment_cache@[k] == (row_at(a.shreds@, k, i)->0).spec_commitment() by {
+                && a.cc().contains_key(k) && a.cc()[k] == (row_at(a.shreds@, k, i)->0).spec_commitment() by {
                 assert(row_at(pre.shreds@, k, i) == row_at(a.shreds@, k, i));
             }
             assert(a.wf());
@@ -897,7 +935,7 @@ after `verif_row_set(slice_shreds, shred_index.inner(), Some(shred));`
             assert(rowc@ == rowb@.update(shred_index.0 as int, Some(shred)));
             assert forall|k: SliceIndex, i: int| c.shreds@.contains_key(k) && 0 <= i < TOTAL_SHREDS && (#[trigger] row_at(c.shreds@, k, i)) is Some implies
                 (row_at(c.shreds@, k, i)->0).spec_payload().header.slice_index == k
-                && c.commitment_cache@.contains_key(k) && c.commitment_cache@[k] == (row_at(c.shreds@, k, i)->0).spec_commitment() by {
+                && c.cc().contains_key(k) && c.cc()[k] == (row_at(c.shreds@, k, i)->0).spec_commitment() by {
                 if k == slice_index {
                     if i != shred_index.0 as int {
                         assert(rowc@[i] == rowb@[i]);
@@ -954,7 +992,7 @@ requires
         old(self).last_slice is None,
         old(self).completed is None,
         shreds@[0].spec_payload().header.slice_index.0 < 1024,
-        !old(self).commitment_cache@.contains_key(shreds@[0].spec_payload().header.slice_index),
+        !old(self).cc().contains_key(shreds@[0].spec_payload().header.slice_index),
         forall|i: int| 0 <= i < TOTAL_SHREDS ==> (#[trigger] shreds@[i]).spec_commitment() == shreds@[0].spec_commitment()
             && shreds@[i].spec_payload().header.slice_index == shreds@[0].spec_payload().header.slice_index,
         shreds@[0].spec_payload().header.slice_index.0 == 0 ==> payload.parent is Some,
@@ -962,7 +1000,7 @@ ensures
         final(self).wf(),
         // [C13.own_slice_is_cached_and_stored_like_a_received_one] the commitment is cached (so a conflicting shred for the own
         // slot is recognised), all 64 shreds are stored under the slice index ...
-        final(self).commitment_cache@ == old(self).commitment_cache@.insert(shreds@[0].spec_payload().header.slice_index, shreds@[0].spec_commitment()),
+        final(self).cc() == old(self).cc().insert(shreds@[0].spec_payload().header.slice_index, shreds@[0].spec_commitment()),
         final(self).shreds@.contains_key(shreds@[0].spec_payload().header.slice_index),
         forall|i: int| 0 <= i < TOTAL_SHREDS ==> #[trigger] row_at(final(self).shreds@, shreds@[0].spec_payload().header.slice_index, i) == Some(shreds@[i]),
         // ... and, until the block completes, the slice kept is the payload under the shreds' header and slice root - what a
@@ -979,11 +1017,11 @@ ensures
 before `let slot = self.slot;`
         let ghost sh0 = shreds;
         let ghost pre = *self;
-after `self.commitment_cache.insert(slice_index, commitment);`
+after `self.commitment_cache .insert(slice_index, (commitment, any_shred.slice_sig()));`
         proof {
             assert forall|k: SliceIndex, i: int| self.shreds@.contains_key(k) && 0 <= i < TOTAL_SHREDS && (#[trigger] row_at(self.shreds@, k, i)) is Some implies
                 (row_at(self.shreds@, k, i)->0).spec_payload().header.slice_index == k
-                && self.commitment_cache@.contains_key(k) && self.commitment_cache@[k] == (row_at(self.shreds@, k, i)->0).spec_commitment() by {
+                && self.cc().contains_key(k) && self.cc()[k] == (row_at(self.shreds@, k, i)->0).spec_commitment() by {
                 assert(row_at(pre.shreds@, k, i) is Some);
             }
             assert(self.wf());
@@ -995,7 +1033,7 @@ before `let block_info =`
             assert(mid.wf());
             assert forall|k: SliceIndex, i: int| self.shreds@.contains_key(k) && 0 <= i < TOTAL_SHREDS && (#[trigger] row_at(self.shreds@, k, i)) is Some implies
                 (row_at(self.shreds@, k, i)->0).spec_payload().header.slice_index == k
-                && self.commitment_cache@.contains_key(k) && self.commitment_cache@[k] == (row_at(self.shreds@, k, i)->0).spec_commitment() by {
+                && self.cc().contains_key(k) && self.cc()[k] == (row_at(self.shreds@, k, i)->0).spec_commitment() by {
                 if k == slice_index {
                     assert(row_at(self.shreds@, k, i) == Some(sh0@[i]));
                 } else {
@@ -1014,7 +1052,7 @@ ret r
 requires
         old(self).disseminated.wf(), old(self).disseminated.last_slice is None, old(self).disseminated.completed is None,
         shreds@[0].spec_payload().header.slice_index.0 < 1024,
-        !old(self).disseminated.commitment_cache@.contains_key(shreds@[0].spec_payload().header.slice_index),
+        !old(self).disseminated.cc().contains_key(shreds@[0].spec_payload().header.slice_index),
         forall|i: int| 0 <= i < TOTAL_SHREDS ==> (#[trigger] shreds@[i]).spec_commitment() == shreds@[0].spec_commitment()
             && shreds@[i].spec_payload().header.slice_index == shreds@[0].spec_payload().header.slice_index,
         shreds@[0].spec_payload().header.slice_index.0 == 0 ==> payload.parent is Some,
@@ -1025,7 +1063,7 @@ ensures
         r.1 matches Some(info) ==> final(self).disseminated.completed is Some && (final(self).disseminated.completed->0).0 == info.hash
             && info.parent.0.0 < old(self).disseminated.slot.0,
         r.1 is None ==> final(self).disseminated.completed is None,
-        final(self).disseminated.commitment_cache@ == old(self).disseminated.commitment_cache@.insert(shreds@[0].spec_payload().header.slice_index, shreds@[0].spec_commitment()),
+        final(self).disseminated.cc() == old(self).disseminated.cc().insert(shreds@[0].spec_payload().header.slice_index, shreds@[0].spec_commitment()),
 @*/
 }
 
@@ -1040,7 +1078,7 @@ requires
         // [C13.leader_adds_each_own_slice_once_in_order] (see BlockData::add_own_slice)
         old(self).block_data@.contains_key(shreds@[0].spec_payload().header.slot) ==> ({
             let d = old(self).block_data@[shreds@[0].spec_payload().header.slot].disseminated;
-            d.wf() && d.last_slice is None && d.completed is None && !d.commitment_cache@.contains_key(shreds@[0].spec_payload().header.slice_index)
+            d.wf() && d.last_slice is None && d.completed is None && !d.cc().contains_key(shreds@[0].spec_payload().header.slice_index)
         }),
         shreds@[0].spec_payload().header.slice_index.0 < 1024,
         forall|i: int| 0 <= i < TOTAL_SHREDS ==> (#[trigger] shreds@[i]).spec_commitment() == shreds@[0].spec_commitment()
